@@ -744,7 +744,7 @@ class OwnAnalyzer:
         key = (id(self.u), cn)
         if key not in cache:
             cfg = callee.cfg()
-            small = len(cfg.nodes) <= 60
+            small = len(cfg.nodes) <= 80
             rec = any(callee_name(x) == cn for x in callee.calls())
             has_alloc = any((callee_name(x) in self.fresh or callee_name(x) in DETACHERS or callee_name(x) in CONSUME_ALWAYS or
                              callee_name(x) in CONSUME_ON_SUCCESS or callee_name(x) in RELEASES or
